@@ -333,3 +333,73 @@ fn c10_gs3_valid_after_lost_handshake_r1() {
     assert!(world().n_sends == 3);
     assert!(sent_is(0, &addr, REQ_GS3_HANDSHAKE) && sent_is(1, &addr, REQ_GS3_HANDSHAKE));
 }
+
+/// Valve: the second fragment of a split reply is lost (silence in the middle of
+/// reassembly) - a timeout-class failure, so with r = 1 the request unit is tried
+/// again; the second attempt gets both fragments and the result is the fault-free
+/// payload. Exactly two identical requests.
+#[cfg(kani)]
+#[kani::proof]
+#[kani::unwind(15)]
+#[kani::stub(alloc::fmt::format, stub_format)]
+fn c10_valve_lost_fragment_then_complete_r1() {
+    use gamedig::protocols::valve::verif_unit as vu;
+    let addr = any_addr_v4();
+    let body: [u8; 4] = kani::any();
+    let frag = |n: u8, bytes: &[u8]| {
+        let mut f = Enc::new();
+        f.le32(0xFFFF_FFFE).le32(0x2A00_0001).u8(2).u8(n).le16(1248).bytes(bytes);
+        f.v
+    };
+    let first = [0xFF, 0xFF, 0xFF, 0xFF, 0x44, body[0]];
+    let second = [body[1], body[2], body[3]];
+    world().push_data(frag(0, &first));
+    world().push_timeout(); // fragment 1 never arrives
+    world().push_data(frag(0, &first));
+    world().push_data(frag(1, &second));
+    let res = vu::get_request_data(&addr, settings(1), &gamedig::protocols::valve::Engine::Source(None), 17, 0x55,
+                                   vec![0xFF, 0xFF, 0xFF, 0xFF]);
+    match &res {
+        Ok(data) => assert!(bytes_eq(data, &body)),
+        Err(_) => assert!(false),
+    }
+    core::mem::forget(res);
+    assert!(world().n_sends == 2);
+    let plain = [0xFF, 0xFF, 0xFF, 0xFF, 0x55, 0xFF, 0xFF, 0xFF, 0xFF];
+    assert!(sent_is(0, &addr, &plain) && sent_is(1, &addr, &plain));
+}
+
+/// Unreal 2: the server answers the info request and then drops the first
+/// players request; with r = 1 the players request is sent again (retries apply to
+/// every request of the exchange, not only the first): info, players, players.
+#[cfg(kani)]
+#[kani::proof]
+#[kani::unwind(20)]
+#[kani::stub(alloc::fmt::format, stub_format)]
+#[kani::stub(core::slice::memchr::memchr, stub_memchr)]
+#[kani::stub(encoding_rs::Encoding::decode, stub_encoding_decode)]
+#[kani::stub(std::io::_print, stub_print)]
+fn c10_unreal2_players_request_retried_r1() {
+    use gamedig::protocols::types::GatherToggle;
+    use gamedig::protocols::unreal2;
+    let addr = any_addr_v4();
+    let mut e = Enc::new();
+    e.u8(0x80).u8(0).u8(0).u8(0).u8(0).le32(1);
+    e.u8(3).bytes(b"ip").u8(0);
+    e.le32(7777).le32(7778);
+    e.u8(3).bytes(b"Nm").u8(0);
+    e.u8(2).bytes(b"M").u8(0);
+    e.u8(2).bytes(b"G").u8(0);
+    e.le32(1).le32(8);
+    world().push_data(e.v);
+    // both players requests go unanswered
+    let gs = unreal2::GatheringSettings {
+        players: GatherToggle::Try,
+        mutators_and_rules: GatherToggle::Skip,
+    };
+    let r = unreal2::query(&addr, &gs, settings(1));
+    core::mem::forget(r);
+    assert!(world().n_sends == 3);
+    assert!(sent_is(0, &addr, REQ_UNREAL2_INFO));
+    assert!(sent_is(1, &addr, &[0x79, 0, 0, 0, 2]) && sent_is(2, &addr, &[0x79, 0, 0, 0, 2]));
+}
